@@ -53,7 +53,7 @@ def cAll (chk : Nat → CState Content MetaRec WalRec LogRec → CEv Content Met
 def ordChk (ph : Nat) (s : CState Content MetaRec WalRec LogRec) : CEv Content MetaRec WalRec LogRec → Prop
   | .effBegin _ e =>
     if e.isMeta = true then ph = 0 ∧ s.vol = []
-    else ph ≠ 1 ∧ (e.file = File.fHt → ph = 2) ∧ (ph = 2 → e.file ≠ File.fLn ∧ e.file ≠ File.fBbn) ∧
+    else (ph = 0 ∨ ph = 2) ∧ (e.file = File.fHt → ph = 2) ∧ (ph = 2 → e.file ≠ File.fLn ∧ e.file ≠ File.fBbn) ∧
       (ph = 2 → e.file = File.fWal → ∀ v ∈ s.vol, v.eff.file ≠ File.fHt)
   | _ => True
 
@@ -186,8 +186,8 @@ theorem no_meta_after (ph : Nat) (s : CState Content MetaRec WalRec LogRec)
 
 /-- the first meta write of an accepted trace is the only one: before it the phase is 0 -/
 theorem phase0_before_meta (s : CState Content MetaRec WalRec LogRec)
-    (cpre crest : List (CEv Content MetaRec WalRec LogRec)) (mb : CEv Content MetaRec WalRec LogRec)
-    (hmb : mb.isMetaBegin = true) (h : cAll (accChk A0 ok) 0 s (cpre ++ mb :: crest)) :
+    (cpre rest : List (CEv Content MetaRec WalRec LogRec)) (mb : CEv Content MetaRec WalRec LogRec)
+    (hmem : mb ∈ rest) (hmb : mb.isMetaBegin = true) (h : cAll (accChk A0 ok) 0 s (cpre ++ rest)) :
     phRun 0 s cpre = 0 ∧ ∀ e ∈ begun cpre, A0 e := by
   induction cpre generalizing s with
   | nil => exact ⟨rfl, fun e he => by cases he⟩
@@ -206,7 +206,7 @@ theorem phase0_before_meta (s : CState Content MetaRec WalRec LogRec)
           | fsyncBegin _ _ => cases hm
           | fsyncEnd _ _ => cases hm
         rw [hph] at h2
-        have := no_meta_after A0 ok 1 _ _ (Nat.le_refl 1) h2 mb (by simp)
+        have := no_meta_after A0 ok 1 _ _ (Nat.le_refl 1) h2 mb (by simp [hmem])
         rw [hmb] at this; cases this
     have hph : nextPhase 0 (cstep s ev) ev = 0 := by
       cases ev with
@@ -394,16 +394,16 @@ theorem J_run (ct : List (CEv Content MetaRec WalRec LogRec)) :
 
 end bridge
 
-/-- the shape of the linearisation of a prefix of an accepted concurrent trace -/
+/-- the shape of the linearisation of a prefix of an accepted concurrent trace, by the phase the prefix ends in -/
 inductive LinShape (A0 : Eff Content MetaRec WalRec LogRec → Prop)
     (ok : Disk Content MetaRec WalRec LogRec → Eff Content MetaRec WalRec LogRec → Prop)
     (pre : List (Ev Content MetaRec WalRec LogRec)) (dA : Disk Content MetaRec WalRec LogRec) (m1 : MetaRec) :
-    List (Ev Content MetaRec WalRec LogRec) → Prop
-  | before (l : List (Ev Content MetaRec WalRec LogRec)) (h : ∀ ev ∈ l, EvA A0 ev) : LinShape A0 ok pre dA m1 l
-  | issued : LinShape A0 ok pre dA m1 (pre ++ [Ev.eff (.setMeta m1)])
+    Nat → List (Ev Content MetaRec WalRec LogRec) → Prop
+  | before (l : List (Ev Content MetaRec WalRec LogRec)) (h : ∀ ev ∈ l, EvA A0 ev) : LinShape A0 ok pre dA m1 0 l
+  | issued : LinShape A0 ok pre dA m1 1 (pre ++ [Ev.eff (.setMeta m1)])
   | durable (post : List (Ev Content MetaRec WalRec LogRec))
       (h : PostG ok ⟨applyEff dA (.setMeta m1), []⟩ post) :
-      LinShape A0 ok pre dA m1 (pre ++ ([Ev.eff (.setMeta m1), Ev.fsync File.fMeta] ++ post))
+      LinShape A0 ok pre dA m1 2 (pre ++ ([Ev.eff (.setMeta m1), Ev.fsync File.fMeta] ++ post))
 
 /-- **Bridge**: an accepted concurrent trace `cpre ++ [Begin of the meta write] ++ crest` started on the flushed disk
 `d0`.  The linearisation `pre` of `cpre` consists of `A0` effects and fsyncs and is FLUSHED (the hypothesis `hflushed` of
@@ -419,9 +419,10 @@ theorem accepted_bridge (A0 : Eff Content MetaRec WalRec LogRec → Prop)
     (run ⟨d0, []⟩ (lin d0 cpre)).vol = [] ∧
     (run ⟨d0, []⟩ (lin d0 cpre)).dur = (crun (cinit d0) cpre).dur ∧
     ∀ cp, cp <+: cpre ++ CEv.effBegin id (.setMeta m1) :: crest →
-      LinShape A0 ok (lin d0 cpre) (crun (cinit d0) cpre).dur m1 (lin d0 cp) := by
+      LinShape A0 ok (lin d0 cpre) (crun (cinit d0) cpre).dur m1 (phRun 0 (cinit d0) cp) (lin d0 cp) := by
   have hmb : (CEv.effBegin id (.setMeta m1) : CEv Content MetaRec WalRec LogRec).isMetaBegin = true := rfl
-  obtain ⟨hph0, hA0⟩ := phase0_before_meta A0 ok (cinit d0) cpre crest _ hmb hacc
+  obtain ⟨hph0, hA0⟩ := phase0_before_meta A0 ok (cinit d0) cpre _ _ (by simp) hmb hacc
+  have hacc0 := hacc
   rw [cAll_append] at hacc
   obtain ⟨hacc1, hacc2⟩ := hacc
   rw [hph0] at hacc2
@@ -439,6 +440,10 @@ theorem accepted_bridge (A0 : Eff Content MetaRec WalRec LogRec → Prop)
     rcases prefix_append_cases cpre _ cp hcp with h1 | ⟨t, ht, rfl⟩
     · -- the switch-over has not been issued
       obtain ⟨r, hr⟩ := h1
+      have hp0 : phRun 0 (cinit d0) cp = 0 := by
+        rw [← hr, List.append_assoc] at hacc0
+        exact (phase0_before_meta A0 ok (cinit d0) cp _ _ (by simp) hmb hacc0).1
+      rw [hp0]
       apply LinShape.before
       apply lin_all A0 d0 cp
       intro e he
@@ -448,7 +453,7 @@ theorem accepted_bridge (A0 : Eff Content MetaRec WalRec LogRec → Prop)
       exact Or.inl he
     · cases t with
       | nil =>
-        rw [List.append_nil]
+        rw [List.append_nil, hph0]
         exact LinShape.before _ hpreA
       | cons ev q =>
         have hq : ev = CEv.effBegin id (.setMeta m1) ∧ q <+: crest := by
@@ -470,13 +475,17 @@ theorem accepted_bridge (A0 : Eff Content MetaRec WalRec LogRec → Prop)
           have hve : (crun (cinit d0) cpre).volEffs = [] := by simp [CState.volEffs, hvolA]
           simp only [lin, linDRun_append, crun_append, crun_cons, linDRun, List.append_assoc]
           simp [linDStep, flushedBy, hve]
-        rw [hlin]
-        rcases hJ with ⟨_, hd, hv, hD⟩ | ⟨_, postD, hD, hpost, hrun, hv⟩
+        have hph : phRun 0 (cinit d0) (cpre ++ CEv.effBegin id (.setMeta m1) :: q) =
+            phRun 1 (cstep (crun (cinit d0) cpre) (CEv.effBegin id (.setMeta m1))) q := by
+          rw [phRun_append, hph0]
+          simp [phRun, nextPhase, Eff.isMeta]
+        rw [hlin, hph]
+        rcases hJ with ⟨hp, hd, hv, hD⟩ | ⟨hp, postD, hD, hpost, hrun, hv⟩
         · simp only [List.nil_append] at hD
-          rw [hD, hv]
+          rw [hD, hv, hp]
           exact LinShape.issued
         · simp only [List.nil_append] at hD
-          rw [hD, List.append_assoc]
+          rw [hD, List.append_assoc, hp]
           apply LinShape.durable
           rw [postG_append, hrun]
           exact ⟨hpost, postG_effs ok _ _ hv⟩
